@@ -89,7 +89,8 @@ LenT    == <<"1", "0.75", "1.25", "0.5", "1.5", "0.875", "1.125">>
 RhoMaxT == <<"180", "170", "190", "160", "175", "185", "165">>
 RhoCritT == <<"33.5", "30", "36.25", "28", "38", "32", "35">>
 VFreeT  == <<"102", "110", "95", "120", "105", "98", "115">>
-AT      == <<"1.867", "2", "1.5", "2.25", "1.375", "1.75", "1.625">>
+\* (0.3: exp(-1/a) falls below the 0.05 floor of the mainstream speed ratio)
+AT      == <<"1.867", "2", "1.5", "2.25", "1.375", "0.3", "1.75", "1.625">>
 BetaT   == <<"1", "3", "0.5", "2", "1.5", "0.75", "2.5">>
 PairBetaT == <<"1", "1", "2", "2", "0.5", "0.5", "3">>
 CT      == <<"2000", "1500", "2500", "1200", "1800">>
@@ -100,7 +101,9 @@ LinkId(j) == "L" \o ToString(j)
 OrigId(a) == "O" \o ToString(a)
 DestId(a) == "D" \o ToString(a)
 
-SegCount(j, k) == ((j + k) % 4) + 1
+\* 1..4 segments, spread by a hash of (shape, link, variant) so that every position of every shape sees every count
+\* over the variants and shapes (a fixed pattern left e.g. "single-segment link just upstream of a ramp node" unvisited)
+SegCount(E, j, k) == HashMod(<<"segments", E, j, k>>, 4) + 1
 \* plain | speed-limited with no / first / last / all / the last two (not a prefix) / the outer (not contiguous) segments
 VslOf(j, k, N) == LET c == (2 * j + 3 * k) % 7
                   IN CASE c = 0 -> [ctl |-> FALSE, vsl |-> {}] [] c = 1 -> [ctl |-> TRUE, vsl |-> {}]
@@ -112,7 +115,8 @@ VslOf(j, k, N) == LET c == (2 * j + 3 * k) % 7
 \* the decorated network of shape s under variant k (all parameters pairwise distinct per slot)
 NetOf(s, k) ==
   LET E == s.edges
-      intA == Family \in {"opts", "neg"}     \* integer exponent so that negative densities stay defined
+      \* integer exponent (2 or 3) so that negative densities stay defined; in the family "neutral" for odd variants only
+      intA == Family \in {"opts", "neg"} \/ (Family = "neutral" /\ k % 2 = 1)
       \* decoration classes: 0 all parameters pairwise distinct per slot; 1 the usual case of a homogeneous motorway
       \* (same rho_max, rho_crit, v_free, a, L and default turn rates everywhere; lanes and segment counts still
       \* differ); 2 distinct parameters but turn rates equal in consecutive pairs
@@ -120,24 +124,28 @@ NetOf(s, k) ==
       long == IF "long" \in DOMAIN s THEN s.long ELSE {}
   IN [links |-> [id \in {LinkId(j) : j \in DOMAIN E} |->
                    LET j == CHOOSE j \in DOMAIN E : LinkId(j) = id
-                       N == IF j \in long THEN 12 ELSE SegCount(j, k)
+                       N == IF j \in long THEN 12 ELSE SegCount(E, j, k)
                        c == IF j \in long /\ k % 2 = 0 THEN [ctl |-> TRUE, vsl |-> {2, 9}] ELSE VslOf(j, k, N)
                        u == IF cls = 1 THEN 1 ELSE j       \* table index: one shared slot for the homogeneous class
+                       \* every table is entered at a rotation that depends on (shape, variant): consecutive slots keep the
+                       \* parameters of one network distinct, and every shape position sees every table entry over the shapes
+                       r(tag) == HashMod(<<tag, E, k>>, 56)
                    IN [up |-> NodeId(E[j][1]), down |-> NodeId(E[j][2]), N |-> N,
-                       lam |-> RQ(Tab(LamT, j + k), 1), L |-> RParse(Tab(LenT, u + 2 * k)),
-                       rho_max |-> RParse(Tab(RhoMaxT, u + k)), rho_crit |-> RParse(Tab(RhoCritT, u + 3 * k)),
-                       v_free |-> RParse(Tab(VFreeT, u + k)), a |-> IF intA THEN RQ(2, 1) ELSE RParse(Tab(AT, u + k)),
-                       beta |-> CASE cls = 1 -> One [] cls = 2 -> RParse(Tab(PairBetaT, j)) [] OTHER -> RParse(Tab(BetaT, j + k)),
+                       lam |-> RQ(Tab(LamT, j + r("lam")), 1), L |-> RParse(Tab(LenT, u + r("L"))),
+                       rho_max |-> RParse(Tab(RhoMaxT, u + r("rho_max"))), rho_crit |-> RParse(Tab(RhoCritT, u + r("rho_crit"))),
+                       v_free |-> RParse(Tab(VFreeT, u + r("v_free"))),
+                       a |-> IF intA THEN RQ(2 + HashMod(<<"integer a", E, u, k>>, 2), 1) ELSE RParse(Tab(AT, u + r("a"))),
+                       beta |-> CASE cls = 1 -> One [] cls = 2 -> RParse(Tab(PairBetaT, j)) [] OTHER -> RParse(Tab(BetaT, j + r("beta"))),
                        ctl |-> c.ctl, vsl |-> c.vsl,
                        \* non-compliance factor: usually 1/10, exactly zero on every third (link, variant) pair
                        alpha |-> IF c.ctl /\ (j + k) % 3 # 0 THEN RQ(1, 10) ELSE Zero]],
       origins |-> [id \in {OrigId(a) : a \in {a \in 1..s.n : s.orig[a] # NoneK}} |->
                    LET a == CHOOSE a \in 1..s.n : OrigId(a) = id
-                   IN [node |-> NodeId(a), kind |-> IF s.orig[a] = "ramp" THEN Tab(RampSeq, a + k) ELSE s.orig[a],
-                       C |-> RParse(Tab(CT, a + k))]],
+                   IN [node |-> NodeId(a), kind |-> IF s.orig[a] = "ramp" THEN Tab(RampSeq, a + HashMod(<<"ramp", E, k>>, 4)) ELSE s.orig[a],
+                       C |-> RParse(Tab(CT, a + HashMod(<<"C", E, k>>, 5)))]],
       dests |-> [id \in {DestId(a) : a \in {a \in 1..s.n : s.dest[a] # NoneK}} |->
                    LET a == CHOOSE a \in 1..s.n : DestId(a) = id
-                   IN [node |-> NodeId(a), kind |-> IF s.dest[a] = "dest" THEN Tab(DestSeq, a + k) ELSE s.dest[a]]]]
+                   IN [node |-> NodeId(a), kind |-> IF s.dest[a] = "dest" THEN Tab(DestSeq, a + HashMod(<<"dest", E, k>>, 2)) ELSE s.dest[a]]]]
 
 \* model parameters: the usual ones, and (by the index i = variant + shape) relations that flip: tau < T (sampling
 \* time above the time constant), small anticipation constant, weaker anticipation
@@ -155,7 +163,7 @@ R(a, b) == <<RQ(a, 1), RQ(b, 1)>>
 CornerNames == <<"high_demand", "congested", "zero_v", "zero_rho", "zero_w", "rho_max", "rho_crit", "ctrl0", "ctrl1inf",
                  "free", "mixed_zero", "low_speed", "ctrl_mixed">>
 PointKind(p) == IF p <= Generic THEN "generic"
-                ELSE IF Family = "neutral" THEN Tab(<<"ctrl1inf", "ctrl_mixed", "congested", "ctrl1inf", "free", "ctrl_mixed">>, p - Generic)
+                ELSE IF Family = "neutral" THEN Tab(<<"ctrl1inf", "ctrl_mixed", "neg_mixed", "congested", "free", "ctrl_mixed">>, p - Generic)
                 ELSE Tab(CornerNames, p - Generic)
 
 \* value of one input slot of net under point (key, kind)
@@ -175,6 +183,8 @@ SlotValue(net, key, kind, slot) ==
                [] kind = "congested" -> U(100, 150)
                [] kind = "free" -> U(1, 10)
                [] kind = "mixed_zero" -> IF coin = 0 THEN Zero ELSE U(2, 110)
+               \* negative densities only where the exponent is an integer (the equilibrium speed is undefined otherwise)
+               [] kind = "neg_mixed" -> IF lk.a \in {RQ(2, 1), RQ(3, 1)} THEN U(-30, 110) ELSE U(2, 110)
                [] OTHER -> IF neg THEN U(-30, 110) ELSE U(2, 110))
        [] t = "v" ->
             (CASE kind = "zero_v" -> Zero
@@ -203,7 +213,7 @@ SlotValue(net, key, kind, slot) ==
        [] t = "vc" ->
             (CASE kind = "ctrl0" -> Zero
                [] kind = "ctrl1inf" -> Inf
-               [] kind = "ctrl_mixed" -> IF coin = 0 THEN U(20, 120) ELSE Inf     \* some signs off (infinite), some on
+               [] kind \in {"ctrl_mixed", "neg_mixed"} -> IF coin = 0 THEN U(20, 120) ELSE Inf     \* some signs off (infinite), some on
                [] OTHER -> U(20, 120))
        [] t = "dd" ->
             (CASE kind = "mixed_zero" -> Zero
